@@ -1,0 +1,54 @@
+//go:build verif
+
+package httpd
+
+// Verification accessor (build tag "verif"): the live route table of a Handler, read
+// from the gorilla router that AddRoutes filled. Read-only; nothing is registered or
+// changed. AddRoutes does not keep the Route values (it wraps HandlerFunc in closures and
+// hands the result to the router), so whether a route was registered with the
+// authenticated signature cannot be read back here; the harness observes that from the
+// running server instead.
+
+import (
+	"sort"
+
+	"github.com/gorilla/mux"
+)
+
+// VerifRoute is one (method, path template) pair registered on the router.
+type VerifRoute struct {
+	Method  string `json:"method"`
+	Pattern string `json:"pattern"`
+}
+
+// VerifRoutes walks the handler's router and returns every registered method x path
+// template, sorted. A route registered without a method matcher is reported with
+// Method "*".
+func (h *Handler) VerifRoutes() []VerifRoute {
+	var out []VerifRoute
+	_ = h.mux.Walk(func(route *mux.Route, _ *mux.Router, _ []*mux.Route) error {
+		tpl, err := route.GetPathTemplate()
+		if err != nil {
+			return nil
+		}
+		methods, err := route.GetMethods()
+		if err != nil || len(methods) == 0 {
+			out = append(out, VerifRoute{Method: "*", Pattern: tpl})
+			return nil
+		}
+		for _, m := range methods {
+			out = append(out, VerifRoute{Method: m, Pattern: tpl})
+		}
+		return nil
+	})
+	sort.Slice(out, func(i, j int) bool {
+		if out[i].Pattern != out[j].Pattern {
+			return out[i].Pattern < out[j].Pattern
+		}
+		return out[i].Method < out[j].Method
+	})
+	return out
+}
+
+// VerifPprofEnabled reports whether ServeHTTP dispatches the /debug/pprof prefix.
+func (h *Handler) VerifPprofEnabled() bool { return h.Config.PprofEnabled }
